@@ -6,7 +6,7 @@ From PG Require Import Common.Strs.
 Import ListNotations.
 
 (* ---------- outcomes ---------- *)
-Inductive uerr := UnitsParse | UnitsErr | ZeroDiv | TypeErr | InternalErr | Hang.
+Inductive uerr := UnitsParse | UnitsErr | ZeroDiv | TypeErr | InternalErr | Hang | NoOracle.
 Inductive ures (A : Type) := UOk (a : A) | URaise (e : uerr).
 Arguments UOk {A} a.
 Arguments URaise {A} e.
@@ -52,13 +52,14 @@ Definition is_int (q : Q) : bool := Qeq_bool q (inject_Z (Qfloor q)).
 
 Section Ops.
 (* value ** non-integer exponent: host floating point, an oracle *)
-Variable rpow : Q -> Q -> Q.
+Variable rpow : Q -> Q -> option Q.
 
 Definition vpow (b e : Q) : ures Q :=
   if is_int e then
     let z := Qfloor e in
     if (z <? 0)%Z && Qeq_bool b 0 then URaise ZeroDiv else UOk (Qpower b z)
-  else if Qle_bool 0 b then UOk (rpow b e) else URaise TypeErr.
+  else if Qle_bool 0 b then match rpow b e with Some v => UOk v | None => URaise NoOracle end
+  else URaise TypeErr.
 
 Definition q_mul (a b : qv) : qv := build (qval a * qval b) (dim_mul (qdim a) (qdim b)).
 Definition q_div (a b : qv) : ures qv :=
